@@ -21,10 +21,17 @@ func newFixedBigInt(n uint) *fixedBigInt {
 		chunkSize = 1
 	}
 
+	// msbMask keeps the low n%64 bits of the most significant word
+	// (all 64 bits when n is a multiple of 64).
+	msbMask := ^uint64(0)
+	if n%64 != 0 {
+		msbMask = (1 << (n % 64)) - 1
+	}
+
 	return &fixedBigInt{
 		bits:    make([]uint64, chunkSize),
 		n:       n,
-		msbMask: (1 << (64 - n%64)) - 1,
+		msbMask: msbMask,
 	}
 }
 
